@@ -19,7 +19,7 @@ using namespace prog;
 #define TSAN_BUILD 0
 #endif
 
-struct Op { int kind; /*0 create+assemble+destroy cycle*/ int combo, mode, chunk, start; bool internal; std::string program; int yield_mask; int via_file = 0; /*1 the program is read through asm_assemble_file, 2 a directory is assembled (must fail), 3 deprecated alias*/ std::string path; };
+struct Op { int kind; /*0 create+assemble+destroy cycle*/ int combo, mode, chunk, start; bool internal; std::string program; int yield_mask; int via_file = 0; /*1 the program is read through asm_assemble_file, 2 a directory is assembled (must fail), 3 deprecated alias*/ std::string path; bool binfile = false; std::string binpath; /* asm_create_bin_file into a file of this thread, read back */ };
 struct Res { int rc, off, cnt; uint64_t hash; bool operator==(const Res &o) const { return rc == o.rc && off == o.off && cnt == o.cnt && hash == o.hash; } };
 
 static std::atomic<int> in_create{0}, in_assemble{0}; static std::atomic<long> overlaps{0};
@@ -45,6 +45,10 @@ static Res exec(const Op &op, bool track) {
   if (track) in_assemble--;
   r.off = asm_get_offset(a);
   if (r.rc == 0 && r.off >= op.start && r.off <= (int)ext.size()) { const uint8_t *p = (const uint8_t *)asm_get_code(a); uint64_t h = 1469598103934665603ULL; for (int i = 0; i < r.off; i++) { h ^= p[i]; h *= 1099511628211ULL; } r.hash = h; }
+  if (op.binfile && r.rc == 0) { // the code goes to this thread's own file and is read back: the file's bytes enter the result
+    maybe_yield(op.yield_mask, 2); int rb = asm_create_bin_file(a, op.binpath.c_str()); uint64_t h = r.hash ^ 0x9e3779b97f4a7c15ULL ^ (uint64_t)rb;
+    FILE *f = fopen(op.binpath.c_str(), "rb"); if (f) { int ch; long n = 0; while ((ch = fgetc(f)) != EOF) { h ^= (uint8_t)ch; h *= 1099511628211ULL; n++; } fclose(f); h ^= (uint64_t)n << 32; unlink(op.binpath.c_str()); } else h ^= 0xdead;
+    r.hash = h; }
   maybe_yield(op.yield_mask, 4);
   asm_destroy_instance(a);
   return r;
@@ -105,6 +109,7 @@ int main(int argc, char **argv) {
       if (fsel < 3) { op.via_file = 1; op.path = dir + "/p" + std::to_string(t) + "_" + std::to_string(i) + ".asm"; FILE *f = fopen(op.path.c_str(), "wb"); if (f) { fwrite(op.program.data(), 1, op.program.size(), f); fclose(f); } }
       else if (fsel == 3) { op.via_file = 2; op.path = dir; }
       else if (fsel == 4) op.via_file = 3;
+      if (!(threads_first && i == 0) && r.below(5) == 0) { op.binfile = true; op.binpath = dir + "/o" + std::to_string(t) + "_" + std::to_string(i) + ".bin"; }
       scripts[t].push_back(op);
     }
     if (!threads_first) for (int t = 0; t < nth; t++) for (auto &op : scripts[t]) ref[t].push_back(exec(op, false));   // single-threaded reference
